@@ -11,11 +11,11 @@ From FV Require Import Base.Prelude Model.Inject Proofs.InjectProofs gen.Templat
 Theorem C14_all_fields_have_slot :
   config_wf inject_cfg = true
   /\ Forall (fun f => field_placed inject_cfg backend_atlas atlas_places f = true) inject_fields
-  /\ Forall (fun f => In f inject_fields) (map fst atlas_places).
+  /\ forallb (fun f => mem_str f inject_fields) (map fst atlas_places) = true.
 Proof.
   split; [vm_compute; reflexivity|]. split.
   - apply Forall_forall. apply forallb_forall. vm_compute. reflexivity.
-  - vm_compute. repeat constructor; tauto.
+  - vm_compute. reflexivity.
 Qed.
 Print Assumptions C14_all_fields_have_slot.
 
